@@ -13,6 +13,7 @@ import Driver.X509
 import Driver.SM2Model
 import Driver.X509Sign
 import Driver.BER
+import Driver.Resume
 open Gmsm
 
 def dispatch (toks : List String) : String :=
@@ -26,6 +27,9 @@ def dispatch (toks : List String) : String :=
     | some r => r
     | none =>
     match Driver.berDispatch toks with
+    | some r => r
+    | none =>
+    match Driver.resumeDispatch toks with
     | some r => r
     | none =>
     match toks with
